@@ -65,6 +65,22 @@ T = {
  "C19r2b": ("C19", "impl/restart.go restartManagerPeerReceive*: recordAcceptedValidationEvents called after re-validation", "a responder-side restart whose re-validation returns a voucher result: recorded although never sent"),
  "C16r2a": ("C16", "graphsync.go processExtension: channel check drops the transfer id (peers only)", "two channels between the same pair of peers: a message for one applied through the other's graphsync request"),
  "C16r2b": ("C16", "graphsync.go gsBlockSentHook: the on-wire early return removed, flag passed as 'unique' instead", "restart with do-not-send-first-blocks: skipped blocks fire DataSent events"),
+ "C02r2a": ("C02", "channels.go/channels_fsm.go: the state machine's FinalityStates list loses Completed (IsChannelTerminated unchanged)", "anything arriving after Completed: a late cancel message, transport callback or API call changes the finished channel"),
+ "C02r2b": ("C02", "impl/impl.go RestartDataTransferChannel publishes a synthetic CleanupComplete for a terminated channel not yet announced by this process", "terminate, stop, reopen on the same datastore, RestartDataTransferChannel with a subscriber registered"),
+ "C08r2a": ("C08", "impl/events.go OnDataReceived: a failed pause announcement returns OnRequestDisconnected(...) (nil) instead of the error", "push responder with a limit; SendMessage to the initiator fails exactly on the report that reaches the limit"),
+ "C08r2b": ("C08", "manager.go LeaveRequestPaused: 'remaining := limit - progress; remaining <= 0' on unsigned values", "an accepting update or restart validation with a non-zero limit strictly below the progress made"),
+ "C11r2a": ("C11", "impl/events.go OnResponseReceived: the self-paused check runs only for bare update responses", "initiator paused while the responder's 'not paused' arrives on an accept / voucher-result / restart response"),
+ "C11r2b": ("C11", "impl/impl.go handleTransportUpdate: transport resumed only if the initiator is not paused", "both parties paused; the responder lifts its pause first through UpdateValidationStatus"),
+ "C12r2a": ("C12", "message1_1prime: TransferId fields become int64 ('align with schema Int')", "a transfer id at or above 2^63 and a byte-level check or a peer on another build"),
+ "C12r2b": ("C12", "message1_1prime ToNet: shared dagcbor.EncodeOptions{AllowLinks: true}.Encode drops the canonical map sort", "a consumer that looks at the bytes (strict decoder, golden bytes, hashing), e.g. a voucher map built in non-canonical order"),
+ "C13r2a": ("C13", "types.go ChannelStages.AddLog: nil-receiver guard dropped in a tidy-up", "a v2 record without a stage log and any event on that channel after migration"),
+ "C13r2b": ("C13", "migrations.go GetChannelStateMigrations: wraps the 2→3 step and overwrites SelfPeer with the opener's identity", "a v2 store whose records carry a SelfPeer different from the peer the module is constructed with"),
+ "C15r2a": ("C15", "message.go FromNet/FromIPLD tails merged; body check weakened to 'both nil' (same defect class as C12b)", "a schema-valid envelope whose kind flag disagrees with the member present"),
+ "C15r2b": ("C15", "network/libp2p_impl.go openStream: 'retry straight away on a stream reset' skips the attempt counter", "NewStream failing with an error wrapping network.ErrReset: unbounded retries"),
+ "C17r2a": ("C17", "channels.go dispatch: Message cleared on the state copy that is also the subscribers' snapshot", "a message-recording event followed by another event; observer reads Message() on the later snapshot"),
+ "C17r2b": ("C17", "impl/impl.go dispatcher: per-subscriber 5 s timeout returns an error, which stops go-pubsub's fan-out", "one subscriber taking more than 5 s and another registered after it"),
+ "C18r2a": ("C18", "impl/timecounter.go new release() (atomic decrement) called by newRequest when the request cannot be built", "a failing open racing two valid opens: an id is issued twice"),
+ "C18r2b": ("C18", "channels.go CreateNew primes the progress cache before Begin", "a duplicate create for a channel with a non-zero limit and progress: its in-memory accounting is reset"),
  "C20r2a": ("C20", "graphsync.go ChannelsForPeer: looks the channel up through getDTChannel (RLock) while already holding dtChannelsLk.RLock", "a writer (trackDTChannel/CleanupChannel) arriving between the two read locks"),
  "C20r2b": ("C20", "channelmonitor.go new Monitor.ShutdownChannel + impl.go CloseDataTransferChannel calls it synchronously", "CloseDataTransferChannel called from inside an event subscriber (unsubscribe under the pubsub read lock)"),
 }
